@@ -7,11 +7,14 @@ package c09
 // pieces carry real hashes).
 
 import (
+	"context"
 	"fmt"
+	"io"
 	"testing"
 	"time"
 
 	"verifharness/fixture"
+	"verifharness/refwire"
 	"verifharness/swarm"
 	"verifharness/vk"
 )
@@ -48,7 +51,9 @@ func largePart(t *testing.T, r *vk.Run, prop string) {
 			if np-b4-2 > 0 {
 				hi = b4 + 2 + rng.IntN(np-b4-2)
 			}
-			for _, p := range []int{b4 - 1, b4, b4 + 1, hi, np - 1, rng.IntN(b4)} {
+			// pieces 0..2 too: that is where offsets beyond 4 GiB land if they are wrapped to 32 bits, and wrapped
+			// arithmetic only shows as wrong content if something is there
+			for _, p := range []int{b4 - 1, b4, b4 + 1, hi, np - 1, rng.IntN(b4), 0, 1, 2} {
 				if p >= 0 && p < np && !g.HashOnly[p] {
 					g.HashOnly[p] = true
 					targets = append(targets, p)
@@ -102,6 +107,55 @@ func largePart(t *testing.T, r *vk.Run, prop string) {
 					c.Count("large_pieces_completed:"+boundaryClass(p, b4, np), 1)
 					done++
 					tr.T.Request(uint32(p), 1, false, false)
+				}
+				// a reader across byte 2^32 (both pieces are complete now) and one at the very end
+				for _, w := range [][2]int64{{4*G - 1000, 2000}, {lc.Length - 777, 777}} {
+					if !tr.T.Pieces.Complete(uint32(w[0]/int64(lc.PieceLen))) || !tr.T.Pieces.Complete(uint32((w[0]+w[1]-1)/int64(lc.PieceLen))) {
+						continue
+					}
+					rd := tr.T.NewReader(context.Background(), w[0], w[1])
+					got, err := io.ReadAll(rd)
+					rd.Close()
+					if err != nil || string(got) != string(g.Truth(w[0], int(w[1]))) {
+						sw.Viol("C02", "model", "large-torrent reader-content", fmt.Sprintf("Reader over [%d,+%d) of a %d-byte torrent returned %d bytes, err %v, differing from the true content", w[0], w[1], lc.Length, len(got), err))
+						return
+					}
+					c.Count("large_reader_windows_compared", 1)
+				}
+				// upload from beyond 4 GiB: a leech asks for blocks of the demanded pieces; the remote's own
+				// monitors compare every payload with the truth
+				lee := tr.Connect(swarm.RemoteOpts{Fast: lc.Fast, Ext: false})
+				lee.HonestAdvert = true
+				if lc.Fast {
+					lee.Send(refwire.Msg{Kind: refwire.KHaveNone})
+				}
+				lee.Send(refwire.Msg{Kind: refwire.KInterested})
+				for w := 0; w < 120 && lee.StChoking(); w++ {
+					time.Sleep(time.Second)
+					sw.Cut()
+				}
+				if !lee.StChoking() {
+					asked := 0
+					for _, p := range targets {
+						if !tr.T.Pieces.Complete(uint32(p)) {
+							continue
+						}
+						for b := 0; b < g.BlocksIn(p) && b < 3; b++ {
+							lee.Send(refwire.Msg{Kind: refwire.KRequest, Index: uint32(p), Begin: uint32(b * fixture.Block), Length: uint32(g.BlockLen(p, b))})
+							asked++
+						}
+					}
+					for w := 0; w < 60 && lee.Count("piece") < asked; w++ {
+						time.Sleep(500 * time.Millisecond)
+						sw.Cut()
+					}
+					c.Count("large_blocks_uploaded", int64(lee.Count("piece")))
+					if lee.Count("piece") < asked {
+						// no clause of C16 demands service within a bound: observed, not judged
+						c.Count("large_requests_unserved_after_30s", int64(asked-lee.Count("piece")))
+					}
+				} else {
+					c.Count("large_leech_never_unchoked", 1)
 				}
 				for _, s := range seeds {
 					for k, v := range s.Counts {
